@@ -152,6 +152,30 @@ theorem C05_safety_clauses (cfgA cfgB : Cfg) (evs : List LEv)
   · have := C05_prefix_means _ _ h.1 hn; exact ⟨this.1, this.2.2⟩
   · have := C05_prefix_means _ _ h.2 hn; exact ⟨this.1, this.2.2⟩
 
+/-- the invariant behind `C05_safety` after every history (non-empty CompIDs): each store is filed by number with
+    well-formed messages; everything queued or in flight was written by the sending engine from its store (a stored
+    message, its PossDup copy, or a gap fill over administrative numbers only); the receiver's expected number never
+    passes the sender's next number; what was delivered is EXACTLY the payloads of the sender's application messages
+    numbered below the receiver's expected number, and what was submitted is the payloads of all of them -/
+theorem C05_invariant (cfgA cfgB : Cfg) (evs : List LEv) (hcf : CfgsOK cfgA cfgB)
+    (hpay : ∀ side p, LEv.send side p ∈ evs → p ≠ "") (hfit : C05_numbers_fit (linkInit cfgA cfgB) evs) :
+    let l := runLink (linkInit cfgA cfgB) evs
+    LInv cfgA cfgB l ∧
+    l.b.store.target ≤ l.a.store.sender ∧ l.a.store.target ≤ l.b.store.sender ∧
+    l.dlvB = appPay (below l.b.store.target l.a.store.msgs) ∧ l.sentA = appPay l.a.store.msgs ∧
+    l.dlvA = appPay (below l.a.store.target l.b.store.msgs) ∧ l.sentB = appPay l.b.store.msgs := by
+  intro l
+  have hev : ∀ e ∈ evs, EvOKL e := by
+    intro e he
+    cases e with
+    | send side p => exact hpay side p he
+    | _ => trivial
+  have h : LInv cfgA cfgB l := by
+    have := LInv_run hcf evs _ (LInv_init cfgA cfgB) hev hfit
+    rw [← runLink_eq] at this
+    exact this
+  exact ⟨h, h.ab.t2, h.ba.t2, h.ab.dlv, h.ab.sent, h.ba.dlv, h.ba.sent⟩
+
 /-- the invariant behind `C05_safety`, one link event at a time (for use by other proofs) -/
 theorem C05_invariant_step (cfgA cfgB : Cfg) (hcf : CfgsOK cfgA cfgB) (l : LSt) (h : LInv cfgA cfgB l) (e : LEv) (hev : EvOKL e)
     (hb0 : Bnd l) (hb1 : Bnd (lstep l e).1) : LInv cfgA cfgB (lstep l e).1 := LInv_lstep hcf h e hev hb0 hb1
@@ -238,6 +262,7 @@ Clause checklist (properties.jsonl C05)
 * "connection cut at arbitrary points (losing any suffix in flight)"   : `LEv.cut` after any number of `LEv.deliver` — every history is covered
 * "either engine discarded and recreated on its persistent store"      : `LEv.restart` (persist = true on both sides is a hypothesis)
 * "sequence resets disabled"                                           : hypotheses resetOnLogon / resetOnLogout / resetOnDisconnect = false
+* the invariant itself (expected number vs. next number, delivered = payloads below the expected number) : C05_invariant, C05_invariant_step
 * per engine: in order and exactly once by number                      : C05_each_side_in_order (C01)
 * the links carry messages faithfully; numbers survive the wire        : C05_link_faithful, C05_number_round_trip
 * why the payload condition is needed, for every state                 : C05_empty_payload_is_consumed
